@@ -97,6 +97,41 @@ def case(shape, kind, how, start, name, exp, got):
             "iterator": name, "expected": exp, "observed": got}
 
 
+def job_deep():
+    """Degenerate but legal shapes: chains.  The pinned iterators spend at most one frame per level (PreOrderIter,
+    PostOrderIter) or none (the level-order family), so under the default recursion limit (1000) chains of height
+    900 resp. 3000 must work; a rewrite that doubles the frames per level halves the usable height."""
+    import sys
+
+    t = core.Tally()
+
+    def run():
+        its = iterators()
+        sys.setrecursionlimit(1000)
+        for height, names in ((900, ("pre", "post")), (3000, ("level", "groups", "zigzag"))):
+            n = height + 1
+            m = tree.Model([None] + list(range(n - 1)), [[i + 1] for i in range(n - 1)] + [[]])
+            for kind in ("user", "light"):
+                nodes = tree.build(m, tree.default_factory(kind), "topdown")
+                idm = tree.IdMap(nodes)
+                for name in names:
+                    for start in (0, n // 2):
+                        got = list(its[name](nodes[start]))
+                        got = [idm.seq(g) for g in got] if name in ("groups", "zigzag") else idm.seq(got)
+                        order = list(range(start, n))
+                        exp = {"pre": order, "post": order[::-1], "level": order, "groups": [[v] for v in order], "zigzag": [[v] for v in order]}[name]
+                        t.c["evaluations"] += 1
+                        t.c["deep_chain_iterations"] += 1
+                        if got != exp:
+                            t.violation("C05: %s on a chain of height %d differs from its definition" % (name, height),
+                                        {"engine": "E2", "module": MOD, "part": "deep", "kind": kind, "height": height, "iterator": name})
+                for nd in nodes:
+                    nd.parent = None
+
+    core.guard(t, "C05", {"engine": "E2", "module": MOD, "part": "deep"}, run, _limit=60)
+    return t
+
+
 def job(shapes):
     t = core.Tally()
     for s in shapes:
@@ -109,6 +144,8 @@ def _tup(x):
 
 
 def replay(c):
+    if c.get("part") == "deep":
+        return [v["why"] for v in job_deep().violations]
     t = core.Tally()
     check_shape(t, _tup(c["shape"]), kinds=(c["kind"],), hows=(c["how"],))
     return [v["why"] for v in t.violations]
@@ -119,7 +156,7 @@ def run(tier):
     shapes = tree.shapes_upto(nmax)
     t = core.Tally()
     jobs = [(MOD, "job", {"shapes": c}) for c in core.chunks(shapes[::-1], core.NPROC * 6)]
-    core.run_pool(jobs, 0, into=t)
+    core.run_pool(jobs + [(MOD, "job_deep", {})], 0, into=t)
     core.run_pool([(MOD, "job", {"shapes": c}) for c in core.chunks(tree.shapes_upto(min(nmax, 6)), core.NPROC)], 1, into=t)
     cov = {
         "states": t.c["states"],
@@ -132,6 +169,6 @@ def run(tier):
                 "transition = one complete iteration; non-trivial = subtree with more than one node" % (nmax, len(shapes)),
         "bounds": {"max_nodes": nmax, "shapes": len(shapes), "assertions_on_upto": min(nmax, 6)},
     }
-    return {"tally": t, "coverage": cov, "guards": ("trees", "nontrivial", "zigzag_reversal_visible", "iterator_reuse_checks"),
+    return {"tally": t, "coverage": cov, "guards": ("trees", "nontrivial", "zigzag_reversal_visible", "iterator_reuse_checks", "deep_chain_iterations"),
             "assumptions": ["trees up to %d nodes; every loop of the iterators is over children lists or levels, all "
                             "branch combinations occur at depth<=4 and <=3 siblings" % nmax]}
